@@ -34,6 +34,13 @@ CLAIMS.update({
             NOTE_PY + " / " + NOTE_C + "; property getter/setter wrappers, adaptation factories and observer registration rollback not yet under contract", "6 C19"),
 })
 
+CLAIMS.update({
+    "C09": ("Failure atomicity of observer registration, proved structurally over two ghost multisets of pending effects (own attachments, completed sub-walks): each step of the graph walker records what it does (children / extra-graph steps by loop invariant), _AddOrRemoveNotifier.__call__ and apply_observers compensate everything recorded on any exception (two undo loops by invariant over a bag abstraction), so on an exceptional exit nothing is left attached; the recursion is modular (a recursive walk is used through this very contract).",
+            NOTE_PY + "; A-UNDO (compensating a just-completed walk / just-made attachment does not raise); the counting clause (add_to/remove_from reference counts), weak references and GC schedules are not yet under contract", "6 C09"),
+    "C20": ("sync_trait(remove=True): the link is deleted and the change handlers (value handler, and the '<name>_items' handler for list traits) are removed exactly when the last partner of that attribute is removed; both change handlers leave the lock table as found on every exit, raise nothing for every faithful list event (int or normalised-slice index) and when no partner is left.",
+            NOTE_PY + "; _on_trait_change(remove=True) detaching its handler is assumed (C16 level); the convergence argument (recursion depth <= 2 through the lock) and sync_trait's registration branch are not yet under contract; GC timing replaced by 'recorded partners are alive'", "6 C20"),
+})
+
 NOT_YET = "not claimed yet: the contracts for this property are still being built (plan in DESIGN.md section 6); no other technique is substituted"
 
 
